@@ -300,8 +300,23 @@ void static_vector_cases(Catalogue& c, bool thorough)
                 auto rangerow = [&](char const* subject, bool relative, auto fn) {
                     // relative: the range is added to the content (limit = free space), else it replaces it
                     std::size_t const limit = relative ? free_ : N;
-                    for (std::size_t extra : {std::size_t(1), std::size_t(2)}) {
-                        c.bad(subject, relative ? "range_gt_free" : "range_gt_capacity", cat(st, ": ", subject, " with ", limit + extra, " elements"), F,
+                    // lengths that wrap to an acceptable value in an 8- or 16-bit size type (the storage bases use
+                    // smallest_size_t<Capacity>): 256 and 65536 more than a fitting length, and the multiples themselves
+                    // (added after seeded breakage c05_range_insert_check_narrowed_count)
+                    struct Extra {
+                        std::size_t extra;
+                        char const* cls;
+                    };
+                    std::vector<Extra> extras{{1, nullptr}, {2, nullptr}};
+                    if (limit < 256) {
+                        extras.push_back({256, "range_len_wraps_8_bit_size_type"});
+                        extras.push_back({256 - limit, "range_len_wraps_8_bit_size_type"});
+                        extras.push_back({65536, "range_len_wraps_16_bit_size_type"});
+                        extras.push_back({65536 - limit, "range_len_wraps_16_bit_size_type"});
+                    }
+                    for (auto const [extra, wcls] : extras) {
+                        if (extra == 0) { continue; }
+                        c.bad(subject, wcls != nullptr ? wcls : (relative ? "range_gt_free" : "range_gt_capacity"), cat(st, ": ", subject, " with ", limit + extra, " elements"), F,
                             [=](Ctx& cx) {
                                 V* v   = mk(cx);
                                 T* src = cx.raw<T>(limit + extra);
